@@ -116,6 +116,8 @@ def run_validation(case):
     machine.right_disp_map = "cross_checking_accurate"
     cfg = {"pipeline": {"validation": {"validation_method": "cross_checking_accurate",
                                        "cross_checking_threshold": threshold_value(case)}}}
+    if case.get("interpolated_disparity"):
+        cfg["pipeline"]["validation"]["interpolated_disparity"] = case["interpolated_disparity"]
     try:
         with warnings.catch_warnings():
             warnings.simplefilter("ignore")
